@@ -11,6 +11,8 @@ import (
 	"math"
 	"math/big"
 	"os"
+	"sync"
+	"sync/atomic"
 	"time"
 
 	"github.com/ethereum/go-ethereum/event"
@@ -47,6 +49,10 @@ type Options struct {
 	LaunchTime  uint64 // genesis timestamp; 0 = DefaultLaunch
 	// StakingPeriod, if > 0, is used for the low/medium/high staking periods (blocks); default = thor's defaults.
 	StakingPeriod uint32
+	// RealRun starts the node through its real Node.Run (start-up initialisation, housekeeping, tx-stash and packer
+	// loops; the packer loop stays parked because the mock communicator never reports "synced") instead of the
+	// VerifInit hook. Blocks are still fed through VerifProcessBlock / VerifDoPack.
+	RealRun bool
 }
 
 // DefaultLaunch is a fixed genesis time far enough in the past that no generated block is a "future block".
@@ -81,15 +87,20 @@ type Node struct {
 	Node   *node.Node
 	Comm   *Comm
 	Pool   *Pool
+	stop   func() // RealRun: cancels Node.Run and waits for it
 }
 
 // Comm is the mock communicator; it captures broadcast blocks.
 type Comm struct {
-	Out    []*block.Block
-	synced chan struct{}
+	Out      []*block.Block
+	synced   chan struct{}
+	syncOnce sync.Once
+	started  chan struct{} // closed when Node.Run has started its loops (Sync is called from one of them)
 }
 
-func (c *Comm) Sync(ctx context.Context, handler comm.HandleBlockStream) {}
+func (c *Comm) Sync(ctx context.Context, handler comm.HandleBlockStream) {
+	c.syncOnce.Do(func() { close(c.started) })
+}
 func (c *Comm) SubscribeBlock(ch chan *comm.NewBlockEvent) event.Subscription {
 	return event.NewSubscription(func(quit <-chan struct{}) error { <-quit; return nil })
 }
@@ -209,9 +220,9 @@ func netConfig(o Options, tp *uint32) *thor.Config {
 // Close removes temporary directories.
 func (n *Net) Close() {
 	for _, x := range n.Nodes {
-		x.Node.VerifClose()
+		x.Close()
 	}
-	n.God.Node.VerifClose()
+	n.God.Close()
 	os.RemoveAll(n.tmp)
 }
 
@@ -256,21 +267,62 @@ func (n *Net) OpenNodeErr(idx int, e *kvrec.Engine, fresh bool) (nd *Node, err e
 	}
 	cons := consensus.New(repo, stater, n.FC)
 	pk := packer.New(repo, stater, acc.Address, &acc.Address, n.FC, 0)
-	cm := &Comm{synced: make(chan struct{})}
+	cm := &Comm{synced: make(chan struct{}), started: make(chan struct{})}
 	pool := &Pool{}
 	nn := node.New(&node.Master{PrivateKey: acc.PrivateKey, Beneficiary: &acc.Address}, repo, eng, stater, ldb, pool,
-		n.tmp, cm, n.FC, node.Options{SkipLogs: n.Opt.SkipLogs}, cons, pk)
-	if err := nn.VerifInit(); err != nil {
+		n.stashDir(), cm, n.FC, node.Options{SkipLogs: n.Opt.SkipLogs}, cons, pk)
+	stop, err := n.start(nn, cm)
+	if err != nil {
 		return nil, err
 	}
 	return &Node{Net: n, Idx: idx, Acc: acc, KV: e, DB: db, Repo: repo, Stater: stater, LogDB: ldb, BFT: eng, Cons: cons,
-		Packer: pk, Node: nn, Comm: cm, Pool: pool}, nil
+		Packer: pk, Node: nn, Comm: cm, Pool: pool, stop: stop}, nil
+}
+
+var stashSeq atomic.Int64
+
+// stashDir gives every node instance its own tx-stash directory (Node.Run opens a leveldb there).
+func (n *Net) stashDir() string {
+	return fmt.Sprintf("%s/stash-%d", n.tmp, stashSeq.Add(1))
+}
+
+// start brings the node up: through the real Node.Run when Options.RealRun is set (waiting until its loops run, so
+// that Run's own start-up initialisation has happened), else through the VerifInit hook. The returned function
+// stops it again.
+func (n *Net) start(nn *node.Node, cm *Comm) (func(), error) {
+	if !n.Opt.RealRun {
+		if err := nn.VerifInit(); err != nil {
+			return nil, err
+		}
+		return nn.VerifClose, nil
+	}
+	ctx, cancel := context.WithCancel(context.Background())
+	done := make(chan error, 1)
+	go func() { done <- nn.Run(ctx) }()
+	select {
+	case <-cm.started:
+	case err := <-done:
+		cancel()
+		return nil, fmt.Errorf("Node.Run returned at start-up: %v", err)
+	case <-time.After(20 * time.Second):
+		cancel()
+		return nil, errors.New("Node.Run did not start its loops within 20s")
+	}
+	return func() { cancel(); <-done }, nil
+}
+
+// Close stops the node (its log worker, and Node.Run when RealRun).
+func (x *Node) Close() {
+	if x.stop != nil {
+		x.stop()
+		x.stop = nil
+	}
 }
 
 // Restart drops every in-memory object of node i and rebuilds the stack over the same store.
 func (n *Net) Restart(i int) *Node {
 	old := n.Nodes[i]
-	old.Node.VerifClose()
+	old.Close()
 	nd := n.openNode(i, old.KV, false)
 	n.Nodes[i] = nd
 	return nd
@@ -471,13 +523,14 @@ func (n *Net) OpenStack(idx int, e *kvrec.Engine, ldb *logdb.LogDB, syncLogs fun
 	}
 	cons := consensus.New(repo, stater, n.FC)
 	pk := packer.New(repo, stater, acc.Address, &acc.Address, n.FC, 0)
-	cm := &Comm{synced: make(chan struct{})}
+	cm := &Comm{synced: make(chan struct{}), started: make(chan struct{})}
 	pool := &Pool{}
 	nn := node.New(&node.Master{PrivateKey: acc.PrivateKey, Beneficiary: &acc.Address}, repo, eng, stater, ldb, pool,
-		n.tmp, cm, n.FC, node.Options{SkipLogs: false}, cons, pk)
-	if err := nn.VerifInit(); err != nil {
+		n.stashDir(), cm, n.FC, node.Options{SkipLogs: false}, cons, pk)
+	stop, err := n.start(nn, cm)
+	if err != nil {
 		return nil, err
 	}
 	return &Node{Net: n, Idx: idx, Acc: acc, KV: e, DB: db, Repo: repo, Stater: stater, LogDB: ldb, BFT: eng, Cons: cons,
-		Packer: pk, Node: nn, Comm: cm, Pool: pool}, nil
+		Packer: pk, Node: nn, Comm: cm, Pool: pool, stop: stop}, nil
 }
